@@ -208,7 +208,26 @@ func main() {
 			if r.Intn(4) == 0 {
 				via, st = "http", remote[f]
 			}
-			switch x := r.Intn(12); {
+			switch x := r.Intn(13); {
+			case x == 12: // copy: the chunk object read by the OTHER client is stored through this one (cache / copy path)
+				g := "comp"
+				if f == "comp" {
+					g = "raw"
+				}
+				c, err := cl[g].GetChunk(ids[id])
+				l, stray := listing(base, idNum)
+				w.Emit(trace.M("ev", "fmtop", "fmt", g, "op", "get", "id", id, "via", "local", "res", classGet(c, err, datas[id]), "listing", l, "stray", stray))
+				if err == nil {
+					res := "ok"
+					if serr := cl[f].StoreChunk(c); serr != nil {
+						res = "error"
+					}
+					l, stray = listing(base, idNum)
+					w.Emit(trace.M("ev", "fmtop", "fmt", f, "op", "store", "id", id, "via", "copy", "res", res, "listing", l, "stray", stray))
+					// and read it back through this client
+					c2, gerr := cl[f].GetChunk(ids[id])
+					w.Emit(trace.M("ev", "fmtop", "fmt", f, "op", "get", "id", id, "via", "local", "res", classGet(c2, gerr, datas[id]), "listing", l, "stray", stray))
+				}
 			case x < 3:
 				err := st.StoreChunk(desync.NewChunk(datas[id]))
 				res := "ok"
